@@ -1,6 +1,9 @@
 """C16 — apply rules create exactly the matching objects, with or without the name-index fast path.  DESIGN.md §2 C16."""
-from vlib import core
+from vlib import core, runner
 from .base import StdCheck
+
+MULT = "api_multiplicity_independent"
+MULT_KNOWN = "clause=" + MULT + " shape=per_disjunct"
 
 
 # Harmless rewrites on which the check stays green (diffs: corpus/C16/negative_controls/, each run through the whole flow
@@ -31,14 +34,18 @@ class C16(StdCheck):
     required_theorems = ["target_hosts_sound_complete", "target_services_sound_complete", "indexed_eq_plain",
                          "apply_exactly_matching", "order_independent", "api_fast_path_eq_plain",
                          "indexed_full_eq_plain_full", "extended_services", "apply_exactly_matching_full",
-                         "order_independent_full", "model_load_meets_spec", "model_api_meets_spec"]
+                         "order_independent_full", "statement_order_independent", "statement_permutation",
+                         "statement_order_counterexample", "api_multiplicity_partial", "api_multiplicity_counterexample",
+                         "model_load_meets_spec", "model_api_meets_spec", "model_api_meets_spec_partial"]
     technique = ("Lean 4 proof (soundness/completeness of the filter-shape recogniser by induction on the recognised shape; refinement "
                  "'indexed = plain' as sets via a per-(rule,target) equivalence of outcomes; set comprehension characterisation of plain "
                  "evaluation) over a hand-written model of ApplyRule::AddTargetedRule/GetTargetHosts/GetTargetServices, "
                  "<Type>::EvaluateApplyRules and FilterUtility::GetFilterTargets' fast path with a self-contained filter language; "
                  "correspondence by loading generated configurations through ConfigCompiler/ConfigItem::CommitItems in one freshly exec'ed "
-                 "process per configuration and variant (as written / every assign filter wrapped as `(F) && true` / Concurrency 1 and 16) "
-                 "and by FilterUtility::GetFilterTargets with and without the wrap")
+                 "process per configuration and variant (as written / every assign filter wrapped as `(F) && true` / Concurrency 1 and 16 / "
+                 "the text permuted: rules, assign-ignore statements inside each rule and objects in reverse order) "
+                 "and by FilterUtility::GetFilterTargets with and without the wrap, plus the same two filters through "
+                 "HttpHandler::ProcessRequest -> ObjectQueryHandler / ActionsHandler (number of results)")
     level_text = ("Machine-checked theorems (Lean 4 kernel), for every filter of the modelled language (literals, variables, indexer, ==, !=, "
                   "&&, ||, !, arbitrary opaque sub-expressions), every rule list, inventory and environment, no size bounds: whenever "
                   "GetTargetHosts/GetTargetServices extract a name list the filter evaluates - without raising - to 'target is in the list' "
@@ -46,15 +53,22 @@ class C16(StdCheck):
                   "set of objects (indexed_eq_plain, unconditional since commit b11cb6d removed F-C16a/F-C16b: rules with `for` are not indexed); plain "
                   "evaluation creates an object exactly for the (rule, target, for-instance) triples where some assign is true and no ignore is; "
                   "both are invariant under permuting rules/hosts/services; all of this also for whole loads in which services created by apply Service "
-                  "rules become targets of the to-Service rules; the model's whole observable trace (as written / wrapped / 16 threads) satisfies "
+                  "rules become targets of the to-Service rules; two ways of writing a configuration that differ in the order of the rules, of the "
+                  "assign/ignore statements inside the rule bodies (any interleaving; the parser's two accumulators are modelled) and of the objects "
+                  "load alike and create the same set wherever every assign/ignore expression has a value (statement_order_independent; "
+                  "statement_order_counterexample shows that `||` short-circuiting makes the hypothesis necessary, in the code as in the model); the "
+                  "model's whole observable trace (as written / wrapped / 16 threads / permuted text) satisfies "
                   "the executable specification predicate (model_load_meets_spec, model_api_meets_spec); the API fast path returns the same set as "
                   "evaluation (api_fast_path_eq_plain, unconditional since commit 77a9c63 removed F-C16c: no fast path when a filter_vars key is a "
-                  "name the evaluator binds itself). The model is tied to the code by "
+                  "name the evaluator binds itself) and the same NUMBER of entries - hence of object-query results and action invocations - when the "
+                  "looked-up names are pairwise distinct (api_multiplicity_partial, model_api_meets_spec_partial); otherwise not "
+                  "(api_multiplicity_counterexample = known finding F-C16d, reproduced through the real HTTP handlers). The model is tied to the code by "
                   "loading thousands of generated configurations (4 source types x Host/Service targets, for-loops over arrays/dictionaries, "
                   "ignore where, constants, filters concentrated on the recognised shapes and their near misses) and comparing the created "
                   "objects (type, name, loop variables, target seen by the body) with the model in both variants; the same specification "
-                  "predicate (fast-path independence, parallel independence, exactly the matching triples, target in scope) is evaluated on "
-                  "the implementation's own observations")
+                  "predicate (fast-path independence, parallel independence, order independence incl. the statements inside a rule, exactly the "
+                  "matching triples - `assign true and ignore not` read over the whole rule whatever the statement order -, target in scope, API "
+                  "set and multiplicity independence) is evaluated on the implementation's own observations")
     level_note = ("Trusted: Lean kernel (+ propext, Classical.choice, Quot.sound), harness/driver, the sampled correspondence. The values of "
                   "opaque sub-expressions (custom variables, groups, function calls) per target are oracle inputs evaluated by the real "
                   "interpreter. Not modelled: evaluation of the rule body beyond the recorded loop variables/target names, name collisions "
@@ -62,6 +76,11 @@ class C16(StdCheck):
                   "opaque atoms on services that exist only through apply Service (the generator uses none there). The set of navigation fields "
                   "of Host/Service is an input read from the implementation's type reflection on every case (a new field is not an alarm); the "
                   "API theorems assume only NavOk (`host`/`service` denote the target), which the driver checks on that reflection. "
+                  "Order independence under permuted statements is stated (spec and theorem) only where the property's reading is defined "
+                  "(every assign/ignore expression evaluates on every target/instance); elsewhere the permuted load is still compared with the "
+                  "model (MISMATCH), which reproduces the short-circuit behaviour exactly. F-C16d (known): the API fast path returns an object once "
+                  "per disjunct naming it; the driver tags a multiplicity failure `shape=per_disjunct` only when all six observed counts equal the "
+                  "model's, any other multiplicity difference is reported. "
                   "Negative controls (must stay green) and seeded changes (must alarm): NEGATIVE_CONTROLS / SEEDED_CHANGES in this file, "
                   "diffs under corpus/C16/negative_controls/.")
     trusted_base = [
@@ -75,6 +94,8 @@ class C16(StdCheck):
         "created objects are observed right after ConfigItem::CommitItems (no ActivateItems: avoids timers of ScheduledDowntime/Notification)",
         "generated object names are collision-free (distinct rule names, distinct for-keys) and contain no '!', ',' or '/'",
         "`(F) && true` is never recognised by the name index and has the truth value and errors of F",
+        "the HTTP handlers are driven in-process through HttpHandler::ProcessRequest over a loopback socket pair that no handler touches "
+        "(as harness/c18.cpp does); the action used to count invocations is reschedule-check",
     ]
     rule = ("seeded random configurations: 1-6 hosts (+ parent host zp), 0-3 services each, vars.os/groups/arr/dict/mix, optional constants; "
             "optional top-level variables captured with use(); 1-4 apply rules over the 7 legal source/target combinations (apply Service next to "
@@ -82,8 +103,11 @@ class C16(StdCheck):
             "loop variables named host/service and kind-mismatched values), assign filters ~55 % recognisable shapes (1-3 disjuncts, swapped "
             "operands, redundant parentheses, duplicates, several assign lines) with single near-miss mutations (!=, constant or number "
             "instead of literal, extra conjunct, host<->service, dropped/duplicated comparison, && for ||, negation), otherwise random boolean "
-            "expressions with opaque atoms; ignore where in ~25 %; each configuration loaded as written and wrapped, Concurrency 1 (and 16 on "
-            "every 3rd case; always in thorough), plus 0-4 API queries (fast vs wrapped) with filter_vars, ~8 % of them with a key that evaluation binds itself (obj, the type "
+            "expressions with opaque atoms; ignore where in ~25 %, in 30 % of those a further assign where below it; the assign/ignore statements "
+            "of half of the rules with several statements are shuffled (every interleaving); each configuration loaded as written and wrapped, "
+            "Concurrency 1 (and 16 on every 3rd case; always in thorough), and with the text permuted (as written on every case, wrapped on "
+            "every 3rd), plus 0-4 API queries (fast vs wrapped; sets from GetFilterTargets, counts also through GET /v1/objects/<type> and POST "
+            "/v1/actions/reschedule-check) with filter_vars, ~8 % of them with a key that evaluation binds itself (obj, the type "
             "name, every navigation field of the type as read from the type reflection at run time, which also feeds the model's World.navNames; "
             "inventory objects have check_period/event_command/command_endpoint set on some). evaluations = (rule, target) filter "
             "evaluations of the model's plain semantics + API per-object evaluations; a case is non-trivial when an apply rule created an "
@@ -99,22 +123,76 @@ class C16(StdCheck):
             return alt
         return super().build_harness()
 
+    # F-C16d: the multiplicity clause fails on ~9 % of the generated queries in the modelled way; one witness is shrunk (the corpus
+    # file a_known_c16d_api_dup.ops comes first), the others are counted. Failures of any other shape go through the normal path.
+    def collect(self, res, lines, save, harness, driver):
+        rest = []
+        for l in lines:
+            if l.startswith("SPECFAIL") and MULT_KNOWN in l:
+                self._dups = getattr(self, "_dups", 0) + 1
+                if not getattr(self, "_dup_done", False):
+                    self._dup_done = True
+                    kv = core.parse_kv(l)
+                    case = runner.extract_case(save, int(kv["case"]), self.case_start)
+                    shown = self.shrink(harness, driver, case, "SPECFAIL", MULT_KNOWN)
+                    res.spec_failures.append(runner.Finding("spec", f"spec:{self.prop}:{MULT}", shown,
+                                                            {"driver": l, "shape": "per_disjunct"}))
+                continue
+            rest.append(l)
+        super().collect(res, rest, save, harness, driver)
+
     def correspondence(self, tier, seed, harness, driver):
+        self._dups, self._dup_done = 0, False
         res = super().correspondence(tier, seed, harness, driver)
         st = res.stats
         need = {"rules_targeted": 100, "rules_regular": 100, "created_by_index": 50, "api_recognised": 20,
                 "rules_for": 50, "rules_ignore": 20, "cascade_cases": 20, "rules_use": 50,
-                "bound_checked": 100, "api_collide_nav": 50, "api_collide_recognised": 50}
+                "bound_checked": 100, "api_collide_nav": 50, "api_collide_recognised": 50,
+                "perm_runs": 100, "rules_assign_after_ignore": 100, "api_counts": 100}
         short = {k: st.get(k, 0) for k, v in need.items() if st.get(k, 0) < v}
         if short:
             raise core.TieBroken("harness:c16:coverage", f"generator no longer reaches: {short}")
         if st.get("model_index_vs_plain_diverge", 0) or st.get("api_model_diverge", 0):
             raise core.TieBroken("model:c16:diverge", "the model's indexed and plain semantics differ on a generated case although "
                                  f"indexed_eq_plain / api_fast_path_eq_plain are proved: {st}")
+        # a multiplicity failure of any other shape is reported before the known one (the runner reports one finding per clause)
+        res.spec_failures.sort(key=lambda f: f.detail.get("shape") == "per_disjunct")
+        res.extra["known_f_c16d_occurrences"] = self._dups
         return res
 
+    @staticmethod
+    def _obs(line):
+        if " | " not in line:
+            return {}
+        return dict(t.split("=", 1) for t in line.split(" | ", 1)[1].split() if "=" in t)
+
     def matches_known(self, entry, finding):
-        return False
+        """F-C16d, narrowly: the finding is the multiplicity clause in the shape the driver tagged `per_disjunct` (all six observed
+        counts are the model's: one entry per disjunct that names an existing object), and on every A line of the minimised witness
+        that shows a difference the two SETS agree, the evaluated filter returns every object once and the fast path, the object query
+        and the action handler return the same surplus."""
+        if entry.get("classifier") != "c16_api_dup_per_disjunct":
+            return False
+        if finding.kind != "spec" or finding.what != f"spec:{self.prop}:{MULT}" or finding.detail.get("shape") != "per_disjunct":
+            return False
+        differing = 0
+        for l in finding.case_lines:
+            if not l.startswith("A "):
+                continue
+            o = self._obs(l)
+            try:
+                nf, ns, dups = int(o["nf"]), int(o["ns"]), int(o["dups"])
+            except (KeyError, ValueError):
+                return False
+            if (o.get("nf"), o.get("qf"), o.get("af")) == (o.get("ns"), o.get("qs"), o.get("as")):
+                continue
+            differing += 1
+            names = [] if o.get("slow") in ("ok:-", None) else o["slow"][3:].split(",")
+            if not (o.get("fast") == o.get("slow") and o["slow"].startswith("ok:") and ns == len(names) and ns >= 1
+                    and dups >= 1 and nf == ns + dups and o.get("qf") == str(nf) and o.get("af") == str(nf)
+                    and o.get("qs") == str(ns) and o.get("as") == str(ns)):
+                return False
+        return differing >= 1
 
 
 CHECK = C16()
